@@ -75,6 +75,35 @@ def _check(*extra):
     return r
 
 
+_DUMPED = [0]
+
+
+def _dump_query(neg, verdict):
+    """cross-solver guard (tools_cross_solver.py): with VERIF_SMT_DUMP=<dir> every final path obligation
+    is written as SMT-LIB2 together with this solver's verdict, so that other solvers can be asked too"""
+    d = os.environ.get('VERIF_SMT_DUMP')
+    if not d:
+        return
+    cap = int(os.environ.get('VERIF_SMT_DUMP_CAP', '40'))
+    ob = os.environ.get('VERIF_OB_NAME', '?')
+    key = (os.getpid(), ob)
+    if _DUMPED[0] and _DUMPED[0][0] == key:
+        if _DUMPED[0][1] >= cap:
+            return
+        _DUMPED[0] = (key, _DUMPED[0][1] + 1)
+    else:
+        _DUMPED[0] = (key, 1)
+    s2 = z3.Solver()
+    s2.add(CTX.solver.assertions())
+    s2.add(neg)
+    import hashlib
+    h = hashlib.sha1(ob.encode()).hexdigest()[:10]
+    fn = os.path.join(d, '%s-%d-%d.smt2' % (h, os.getpid(), _DUMPED[0][1]))
+    with open(fn, 'w') as f:
+        f.write('; obligation: %s\n; verdict: %s\n' % (ob, verdict))
+        f.write(s2.to_smt2())
+
+
 def fresh_name(prefix):
     CTX.fresh += 1
     return '%s!%d' % (prefix, CTX.fresh)
@@ -812,7 +841,11 @@ class SymStr(object):
     def __fspath__(self):
         raise Unsupported('structured string used as a real path')
 
-    __hash__ = None
+    def __hash__(self):
+        # one bucket for every structured string: set/dict membership then goes through __eq__ (a SymBool
+        # that forks).  Sound as long as a container does not mix them with plain str keys (not the case
+        # in the code under analysis: bundle file names of symbolic coordinates).
+        return 0x5157
 
     def __eq__(self, o):
         if isinstance(o, (str, SymStr)):
@@ -1229,7 +1262,8 @@ class SymPath(object):
     def __fspath__(self):
         raise Unsupported('structured path used for real I/O')
 
-    __hash__ = None
+    def __hash__(self):
+        return 0x5157       # see SymStr.__hash__
 
     def __eq__(self, o):
         if isinstance(o, (SymPath, str)):
@@ -1689,6 +1723,7 @@ def explore(fn, mk_inputs, allowed_exc=(), max_paths=20000, timeout_s=600, solve
                 neg = z3.BoolVal(not res)
             obligations += 1
             r = _check(neg)
+            _dump_query(neg, r)
             if r == z3.sat:
                 m = c.solver.model()
                 return Result('sat', model=m, stats=stats(),
